@@ -895,7 +895,7 @@ func (t *Tokenizer) readQuotedIdentifier() (models.Token, error) {
 
 		if r == '\n' {
 			return models.Token{}, errors.UnterminatedStringError(
-				models.Location{Line: startPos.Line, Column: startPos.Column},
+				t.toSQLPosition(startPos),
 				string(t.input),
 			)
 		}
